@@ -187,6 +187,33 @@ impl Family for Scope {
 #[derive(Default)]
 pub struct AliasChain;
 
+/// C20 on alias chains: the types a visitor is shown for the field `M::Use::f` - its own type, then what is nested inside,
+/// through the aliases
+#[derive(Default)]
+struct TypeWalk {
+    on: bool,
+    seen: Vec<Value>,
+}
+impl slicec::visitor::Visitor for TypeWalk {
+    fn visit_field(&mut self, x: &Field) {
+        self.on = x.parser_scoped_identifier() == "M::Use::f";
+    }
+    fn visit_type_ref(&mut self, x: &TypeRef) {
+        if self.on {
+            self.seen.push(ast_project::type_ref(x));
+        }
+    }
+}
+/// a type tree in pre-order: the type, then element / key, value / success, failure
+fn preorder(v: &Value, out: &mut Vec<Value>) {
+    out.push(v.clone());
+    for child in ["e", "k", "v", "s", "x"] {
+        if let Some(c) = v["t"].get(child) {
+            preorder(c, out);
+        }
+    }
+}
+
 impl Family for AliasChain {
     fn run(&mut self, case: &Value) -> Outcome {
         let chain = case["chain"].as_array().cloned().unwrap_or_default();
@@ -228,6 +255,10 @@ impl Family for AliasChain {
         } else {
             Value::Null
         };
+        let mut walk = TypeWalk::default();
+        if clean {
+            state.files[0].visit_with(&mut walk);
+        }
         let diags = state.into_diagnostics(&Default::default());
         let mut codes: Vec<String> = diags.iter().filter(|d| d.level() == DiagnosticLevel::Error).map(|d| d.code().to_owned()).collect();
         codes.sort();
@@ -252,7 +283,14 @@ impl Family for AliasChain {
             if !clean {
                 Some(mismatch("a resolvable alias chain was rejected", want, json!(codes)))
             } else {
-                crate::fam_syntax::first_diff(&want, &observed, "f").map(|d| json!({"kind": "mismatch", "what": "alias not replaced transparently (target / attributes / optionality)", "at": d}))
+                let mut shown = Vec::new();
+                preorder(&want, &mut shown);
+                crate::fam_syntax::first_diff(&want, &observed, "f")
+                    .map(|d| json!({"kind": "mismatch", "what": "alias not replaced transparently (target / attributes / optionality)", "at": d}))
+                    .or_else(|| {
+                        crate::fam_syntax::first_diff(&json!(shown), &json!(walk.seen), "visited")
+                            .map(|d| json!({"kind": "mismatch", "what": "types a visitor is shown for the field (its type, then the types nested in it, through the aliases)", "at": d}))
+                    })
             }
         } else {
             let mut want = strs(&expect["codes"]);
